@@ -1,4 +1,6 @@
 import GixModel.Lemmas.C29
+import GixModel.Lemmas.C29Total
+import GixModel.Lemmas.C29Writer
 /-
 C29 — Packet-line framing is exact and never panics.  PROPERTY THEOREMS ONLY.
 
@@ -185,7 +187,7 @@ theorem sideband_demux (c : Consts) (hc : ConstsOk c) (ms : List Msg) (hv : ∀ 
     (rest : Bytes) (cs : List Bytes) (hne : NonEmptyChunks cs)
     (hflat : cs.flatten = wireAll c (ms.map Msg.line) ++ (wire c .flush ++ rest))
     (ns : List Nat) (hpos : ∀ n ∈ ns, 0 < n) :
-    let s0 : SB := ⟨Reader.new c cs [.flush] false, true, 0, 0, []⟩
+    let s0 : SB := ⟨Reader.new c cs [.flush] false, true, 0, 0, [], none⟩
     let out := drain c s0 ns []
     (out.2.1 = .eof ∨ out.2.1 = .sizes) ∧
     (∃ suf, dataOf ms = out.1 ++ suf) ∧ (∃ suf, progressOf ms = out.2.2.log ++ suf) ∧
@@ -195,6 +197,7 @@ theorem sideband_demux (c : Consts) (hc : ConstsOk c) (ms : List Msg) (hv : ∀ 
   intro s0 out
   have hinv : SBInv c s0 ms rest := {
     handler := rfl
+    noInterrupt := rfl
     ready := ⟨rfl, rfl, hne⟩
     flat := hflat
     plain := by
@@ -222,7 +225,7 @@ theorem sideband_delivers_all (c : Consts) (hc : ConstsOk c) (ms : List Msg) (hv
     (rest : Bytes) (cs : List Bytes) (hne : NonEmptyChunks cs)
     (hflat : cs.flatten = wireAll c (ms.map Msg.line) ++ (wire c .flush ++ rest))
     (ns : List Nat) (hpos : ∀ n ∈ ns, 0 < n) (hmany : (dataOf ms).length < ns.length) :
-    let s0 : SB := ⟨Reader.new c cs [.flush] false, true, 0, 0, []⟩
+    let s0 : SB := ⟨Reader.new c cs [.flush] false, true, 0, 0, [], none⟩
     let out := drain c s0 ns []
     out.2.1 = .eof ∧ out.1 = dataOf ms ∧ out.2.2.log = progressOf ms := by
   intro s0 out
@@ -242,5 +245,126 @@ example :
     let ms := [Msg.data [1, 2], .progress [104, 105, 10], .error [33], .data [3]]
     (∀ m ∈ ms, m.Valid consts) ∧ dataOf ms = [1, 2, 3] ∧
       progressOf ms = [(false, [104, 105]), (true, [33])] := by decide
+
+/-! ### round 2: `WithSidebands` never panics, on anything -/
+
+/-- `WithSidebands::{fill_buf, consume, read}` over ANY stream (malformed prefixes, unknown band
+bytes, bands without payload, control lines, ERR lines, truncation), split by the reader in any
+way, taken over after ANY sequence of `read_line`/`peek_line` calls on the packet-line reader, with
+or without a progress handler, the handler answering `Interrupt` at any call or never: no
+sequence of calls panics, provided the amounts passed to `consume` respect the caller contract
+`SBCall.Legal` — `amt + MAX_LINE_LEN < 2^64`, which every `amt ≤ fill_buf().len()` (the `BufRead`
+contract) satisfies. -/
+theorem sideband_never_panics (c : Consts) (hc : ConstsOk c) (cs : List Bytes) (hne : NonEmptyChunks cs)
+    (delims : List Line) (failOnErr : Bool) (before : List Call) (handler : Bool) (intr : Option Nat)
+    (calls : List SBCall) (hlegal : ∀ k ∈ calls, k.Legal c) :
+    ∀ x ∈ (runSB c calls
+        ⟨(runCalls c before (Reader.new c cs delims failOnErr)).2, handler, 0, 0, [], intr⟩).1,
+      x ≠ SBObs.panic :=
+  (runSB_total c hc calls hlegal _
+    (SB.new_ok c _ (runCalls_inv2 c hc before _ (Reader.new_inv2 c cs hne delims failOnErr)) handler intr)).1
+
+/-- the caller contract is what `BufRead` asks for: consuming at most what `fill_buf` handed out
+is always legal (the slice is never longer than a line) -/
+theorem consume_contract (c : Consts) (hc : ConstsOk c) (s : SB) (h : SB.Ok c s) (bs : Bytes)
+    (hfill : (fillBuf c s).1 = .ok bs) (amt : Nat) (hamt : amt ≤ bs.length) :
+    (SBCall.consume amt).Legal c := by
+  obtain ⟨_, hok, hlen⟩ := fillBuf_total c hc s h
+  obtain ⟨_, _, hcm, _⟩ := hok
+  have := hlen bs hfill
+  obtain ⟨_, _, h65, hml, _⟩ := hc
+  show amt + c.maxLineLen < 18446744073709551616
+  omega
+
+/-- … and the contract is needed: `consume(usize::MAX)` after a `fill_buf` that positioned the
+reader inside a band overflows `pos + amt` (a panic with overflow checks; replayed against the
+real code by the harness). -/
+theorem consume_overflow_panics :
+    (runSB consts [.fill, .consume 18446744073709551615]
+      ⟨Reader.new consts [[48, 48, 48, 54, 1, 97]] [] false, true, 0, 0, [], none⟩).1
+      = [.bytes [97], .panic] := by decide +kernel
+
+-- non-vacuity / the formerly panicking input `0005\x02` (progress band without text), an unknown
+-- band, and the handler interrupting at its second call
+example : (runSB consts [.read 8] ⟨Reader.new consts [[48, 48, 48, 53, 2]] [] false, true, 0, 0, [], none⟩).1
+    = [.err .io] := by decide +kernel
+example : (runSB consts [.read 8] ⟨Reader.new consts [[48, 48, 48, 54, 9, 97]] [] false, true, 0, 0, [], none⟩).1
+    = [.err (.invalidBand 9)] := by decide +kernel
+example :
+    let out := runSB consts [.read 8]
+      ⟨Reader.new consts [[48, 48, 48, 54, 2, 97, 48, 48, 48, 54, 3, 98, 48, 48, 48, 54, 1, 99]] [] false,
+        true, 0, 0, [], some 1⟩
+    out.1 = [.err .interrupted] ∧ out.2.log = [(false, [97]), (true, [98])] := by decide +kernel
+
+/-! ### round 2: `Writer` -/
+
+/-- `Writer::write_all(buf)` in binary mode, for EVERY non-empty `buf` of any size: it succeeds;
+what reaches the inner writer is the wire image of data lines whose payloads are non-empty, at most
+`MAX_DATA_LEN` long each, and concatenate to exactly `buf` (large writes are split, nothing is lost,
+reordered or padded); and reading that output back through `StreamingPeekableIter` — however the
+transport splits it — returns exactly those lines, then EOF. -/
+theorem writer_binary_roundtrip (c : Consts) (hc : ConstsOk c) (buf : Bytes) (hne : buf ≠ []) :
+    ∃ chunks : List Bytes,
+      writerWriteAll c true buf = (wireAll c (chunks.map Line.data), true) ∧
+      chunks.flatten = buf ∧ (∀ ch ∈ chunks, ch ≠ [] ∧ ch.length ≤ c.maxDataLen) ∧
+      ∀ (cs : List Bytes), NonEmptyChunks cs → cs.flatten = wireAll c (chunks.map Line.data) →
+        (readAll c (readAllFuel (Reader.new c cs [] false)) (Reader.new c cs [] false)).1
+          = chunks.map (fun ch => Res.line (.data ch)) ++ [Res.io] := by
+  obtain ⟨e1, e2, e3⟩ := writerLoop_binary c hc (buf.length + 1) buf [] (Nat.le_refl _)
+  refine ⟨chunksOf c.maxDataLen (buf.length + 1) buf, ?_, e2, e3, ?_⟩
+  · have he : buf.isEmpty = false := by cases buf with | nil => exact absurd rfl hne | cons a b => rfl
+    simp only [writerWriteAll, writerWrite, he, Bool.false_eq_true, if_false, e1, List.nil_append]
+  · intro cs hcs hflat
+    have := read_lines_roundtrip c hc ((chunksOf c.maxDataLen (buf.length + 1) buf).map Line.data) [] false
+      (by
+        intro l hl
+        simp only [List.mem_map] at hl
+        obtain ⟨ch, hch, rfl⟩ := hl
+        exact ⟨e3 ch hch, rfl, by intro h; cases h⟩)
+      cs hcs hflat
+    rw [this, List.map_map]
+    rfl
+
+/-- text mode: a non-empty `buf` shorter than `MAX_DATA_LEN` becomes ONE line `buf ++ "\n"`; from
+`MAX_DATA_LEN` bytes on the call fails before anything is written (the appended newline does not
+fit the first chunk) — never a truncated or over-long line. -/
+theorem writer_text_line (c : Consts) (hc : ConstsOk c) (buf : Bytes) (hne : buf ≠ []) :
+    (buf.length < c.maxDataLen → writerWriteAll c false buf = (wire c (.data (buf ++ [10])), true)) ∧
+    (c.maxDataLen ≤ buf.length → writerWriteAll c false buf = ([], false)) := by
+  obtain ⟨_, h1, _⟩ := hc
+  have he : buf.isEmpty = false := by cases buf with | nil => exact absurd rfl hne | cons a b => rfl
+  have hpos : 0 < buf.length := List.length_pos_iff.mpr hne
+  constructor
+  · intro hlt
+    have hmin : min buf.length c.maxDataLen = buf.length := by omega
+    simp only [writerWriteAll, writerWrite, he, Bool.false_eq_true, if_false]
+    unfold writerLoop
+    simp only [he, Bool.false_eq_true, if_false, hmin, List.take_length, List.drop_length]
+    rw [encText_valid c buf hne (by omega)]
+    simp only
+    unfold writerLoop
+    cases hb : buf.length with
+    | zero => omega
+    | succ n => simp [writerLoop]
+  · intro hge
+    have hmin : min buf.length c.maxDataLen = c.maxDataLen := by omega
+    simp only [writerWriteAll, writerWrite, he, Bool.false_eq_true, if_false]
+    unfold writerLoop
+    simp only [he, Bool.false_eq_true, if_false, hmin]
+    have : encText c (buf.take c.maxDataLen) = .error (.tooLong (c.maxDataLen + 1)) := by
+      simp only [encText, encode, List.length_nil, Nat.zero_add, List.length_take, List.length_cons]
+      rw [if_pos (by omega)]
+      congr 2
+      omega
+    rw [this]
+
+-- non-vacuity: today's writer on a 65517-byte buffer (two lines), and a concrete small write
+example (buf : Bytes) (h : buf.length = 65517) : ∃ chunks : List Bytes,
+    writerWriteAll consts true buf = (wireAll consts (chunks.map Line.data), true) ∧ chunks.flatten = buf := by
+  obtain ⟨chunks, e1, e2, _⟩ := writer_binary_roundtrip consts extracted_consts_ok buf
+    (by intro he; rw [he] at h; simp at h)
+  exact ⟨chunks, e1, e2⟩
+example : writerWriteAll consts true [1, 2, 3] = ([48, 48, 48, 55, 1, 2, 3], true) ∧
+    writerWriteAll consts false [104, 105] = ([48, 48, 48, 55, 104, 105, 10], true) := by decide +kernel
 
 end GixModel.Props.C29
